@@ -25,6 +25,15 @@ CLAIMS = {
             "messages must round-trip. BlockOption.decode is additionally translated to z3 bit-vectors (E2).",
             "reference codec vf/refcodec.py written from the RFC; byte-string lengths concrete per obligation; option numbers by index or pre-populated enum ranges; CPython UTF-8 codec trusted",
             TECH_E1 + "; AST->z3 bit-vector translation for BlockOption.decode", "DESIGN.md 5 C01"),
+    "C11": ("protect/unprotect and the OSCORE option codec run over ideal-primitive stand-ins, so that hiding, binding and tamper "
+            "detection reduce to what aiocoap's own code puts into key, nonce, AAD and the outer message: round trip and outer-"
+            "message content for request/response shapes x id/context profiles x sequence-number boundaries with symbolic payload "
+            "bytes; responses never verify against a foreign request; every byte position of option and ciphertext x 8 "
+            "replacement kinds and field-level manipulations of kid / kid context / partial IV are rejected with a protection "
+            "error; _uncompress is total for all option values of 0..3 (5) bytes; _construct_nonce is translated to z3 and shown "
+            "injective and RFC-conformant for all length pairs.",
+            "ideal AEAD / random-oracle HKDF / injective CBOR stand-ins (cryptography, cbor2 absent); group modes outside; shapes by symbolic index",
+            TECH_E1 + " over ideal crypto stubs; AST->z3 bit-vector translation of _construct_nonce", "DESIGN.md 5 C11"),
     "C12": ("ReplayWindow.is_valid/strike_out/initialize_* are translated from the repository source to z3 bit-vectors; one "
             "strike_out step from ANY state satisfying the representation invariant is shown (unsat of each negated claim) to "
             "preserve the invariant, never accept a number twice, never re-validate, keep everything above the highest seen "
